@@ -27,6 +27,15 @@ def run(ctx):
                 c["dur"] = [d if d != "0" else "1/4" for d in c["dur"]]
                 # likewise an infection at exactly tmin through a zero delay is recorded as an initial 'I' entry
                 c["delay"] = [[u, v, d if d != "0" else "1/4"] for u, v, d in c["delay"]]
+            if k % 6 == 5 and sim in ("fast_SIR", "fast_SIS", "basic_discrete_SIR", "basic_discrete_SIS", "percolation_based_discrete_SIR") and c["n"] >= 2:
+                # SELF-LOOPS (configuration-model networks have them): a node is its own neighbour; no transmission may ever
+                # be recorded from a node to itself, everything else as usual
+                for u in ctx.rng.sample(range(c["n"]), ctx.rng.randint(1, 2)):
+                    if [u, u] not in c["edges"]:
+                        c["edges"].append([u, u])
+                        if c.get("ew") is not None:
+                            c["ew"].append(c["ew"][0] if c["ew"] else "1")
+                ctx.count("self-loops:" + sim)
             out, G, idx = allsims.run_impl(c, rng=ctx.rng, full=True)
             rep = dict(entry=sim, case=strip(c), tape=out["tape"])
             ctx.count("%s:%s" % (sim, "ok" if out["ok"] else "err=" + out["err"]))
